@@ -55,7 +55,7 @@ Inner(kind) ==
     [] kind = "privclass" -> << N("class", "_PInner", {}, << Method("inst") >>) >>
     [] kind = "enum" -> << EnumN("NestedE", 2) >>
 
-Supers == {"none", "one", "two", "aliased", "subscripted"}     \* subscripted: class Cls(GenBase[int])
+Supers == {"none", "one", "two", "aliased", "subscripted", "subscripted-aliased"}     \* subscripted-aliased: class Cls(GenAlias[int]), GenAlias imported as alias of basemod.GenBase after another class called GenBase     \* subscripted: class Cls(GenBase[int])
 ClassN(name, ctor, cattr, mkinds, inner, sup) ==
   [ N("class", name, {}, (IF cattr THEN << ClassAttr >> ELSE <<>>) \o (IF ctor THEN << Ctor >> ELSE <<>>)
                           \o mkinds \o Inner(inner)) EXCEPT !.flags = { "super-" \o sup } ]
@@ -69,7 +69,7 @@ Classes(tier) ==
   { ClassN(nm, ct, ca, ms, inn, sup) :
       nm \in {"Cls", "_PrivCls"}, ct \in BOOLEAN, ca \in BOOLEAN, ms \in MethodSeqs(tier),
       inn \in (IF tier = "quick" THEN {"none", "class2", "enum"} ELSE InnerKinds), sup \in (IF tier = "quick" THEN {"none", "two", "aliased"} ELSE Supers) }
-  \cup { ClassN("Cls", ct, TRUE, << Method("inst") >>, "none", "subscripted") : ct \in BOOLEAN }
+  \cup { ClassN("Cls", ct, TRUE, << Method("inst") >>, "none", sup) : ct \in BOOLEAN, sup \in {"subscripted", "subscripted-aliased"} }
 Funcs == { N("func", "dflt", {}, << ParamD("a", "+2"), ParamD("b", "-1"), ParamD("c", "1.5"), ParamD("d", "+0.5"), Res >>),
            N("func", "dflt2", {}, << ParamD("a", "None"), ParamD("b", "True"), ParamD("c", "'s'"), ParamD("d", "0x10"), ParamD("e", "-2.5"), Res >>),
            N("func", "fun", {}, << Param("a"), Param("b"), Res >>), N("func", "_pfun", {}, << Param("a") >>), N("func", "noargs", {}, <<>>),
@@ -183,7 +183,7 @@ JudgeWalk(m, obs) ==
                                         ELSE IF d > Len(got) THEN "missing-event:" \o exp[d][1] \o "-" \o exp[d][2]
                                         ELSE "expected-" \o exp[d][1] \o "-" \o exp[d][2] \o ":got-" \o got[d][1] \o "-" \o got[d][2]),
              expected |-> ToString(exp), observed |-> ToString(got)] }
-ExpSupers(sup) == CASE sup = "none" -> <<>> [] sup = "one" -> <<"basemod.BaseA">> [] sup = "two" -> <<"basemod.BaseA", "basemod.BaseB">> [] sup = "aliased" -> <<"basemod.BaseA">> [] sup = "subscripted" -> <<"basemod.GenBase">>
+ExpSupers(sup) == CASE sup = "none" -> <<>> [] sup = "one" -> <<"basemod.BaseA">> [] sup = "two" -> <<"basemod.BaseA", "basemod.BaseB">> [] sup = "aliased" -> <<"basemod.BaseA">> [] sup = "subscripted" -> <<"basemod.GenBase">> [] sup = "subscripted-aliased" -> <<"basemod.GenBase">>
 (* obs = [mid, entries: Seq [kind, id, name, refs: Seq ids, flags: Seq], sorted: BOOLEAN, dups: Seq ids, schema: Nat, valid: BOOLEAN] *)
 Judge(m, obs) ==
   LET E == ToSet(obs.entries)
